@@ -151,7 +151,7 @@ CATALOG = {
                      "token-balance matching of notify/notify_all, lock context of every Event flag access",
         "level": "Decides necessary conditions only: the (kind, value, maxvalue) table; wait's ordering/pairing obligations; the token balance of "
                  "notify and notify_all (#wake tokens = #sleepers grabbed = #woken signals awaited, re-zeroing); Event flag accesses under the "
-                 "condition, set = 1 then notify_all, wait re-reads the flag; get/setstate agreement.",
+                 "condition, set = 1 then notify_all, wait re-reads the flag; get/setstate agreement; the after-fork hooks are callable the way the stdlib calls them and reset the forked copy.",
         "note": "Partial by nature: correctness of the three-semaphore protocol under every interleaving is a model-checking question and is NOT decided "
                 "by this family; the clauses above are what breaks it structurally.",
     },
@@ -188,7 +188,7 @@ CATALOG = {
                      "list, resource pairing of pipe ends on all paths, must-pass-through of the initializer, role agreement of the spawn tuple by points-to",
         "level": "Decides close_fds=True, pass_fds only from the keep-list, environment overlay order, that no parent pipe end can enter the keep-list, "
                  "that child ends are closed in the parent, that the initializer precedes the first task on every path and its failure ends the "
-                 "worker, that every spawn ships the same role-correct 8-tuple plus env, the init_main_module protocol and the exit-code mapping.",
+                 "worker, that every spawn ships the same role-correct 8-tuple plus env, the init_main_module protocol, the exit-code mapping, and that get_context() asks for the requested start method before the process-wide default.",
         "note": "Partial: the descriptor table of a live worker is kernel state and is not decided.",
     },
     "C19": {
